@@ -161,6 +161,17 @@ func init() {
 		}}
 }
 
+func init() {
+	families["C01"] = &rt.Family{Prop: "C01", Module: "MC_C01", PackSize: 1, Judge: "build", JudgeBuild: true,
+		More: []rt.Extra{
+			{Module: "MC_C02"}, {Module: "MC_C03"}, {Module: "MC_C09"}, {Module: "MC_C14S", Frac: frac(0.2, 1)},
+			{Module: "MC_C04", Frac: frac(0.3, 1)}, {Module: "MC_C08", Frac: frac(0.15, 1)}, {Module: "MC_C11", Frac: frac(0.15, 1)},
+			{Module: "MC_C06", ExtraCfg: maxStr(1, 1), Frac: frac(0.3, 1)}, {Module: "MC_C07", ExtraCfg: tierCfg, Frac: frac(0.15, 1)},
+			{Module: "MC_C05", Frac: frac(0.01, 0.2)}, {Module: "MC_C15", ExtraCfg: tierCfg, Frac: frac(0.05, 0.3)},
+		},
+		Rule: "programs = C01's own units (11 hostile description / title texts x 5 positions, goJSONSchema extension objects of 4 kinds x 4 positions, patterns with quote / backslash class / backtick; each under 4 option sets: default, --extra-imports, --only-models, --min-sized-ints) plus the units of every other family (seeded samples of the large ones); every program the generator emits without error must be formatted by the generator, be gofmt-stable and compile against exactly its imports (go build: undeclared and unused identifiers / imports, ill-typed literals are errors). Compile failures the specification predicts per unit (field nobuild) are the recorded findings. distinct_nontrivial counts programs (documents are not judged)"}
+}
+
 func hasMult(u *rt.Unit) bool {
 	b := fmt.Sprint(u.Raw["schema"], u.Raw["defs"])
 	return containsStr(b, "multipleOf")
